@@ -217,7 +217,7 @@ Ret(S, ev) ==
   ELSE IF NullDev(S, ev) THEN (IF ev.e \in DOMAIN NullRet THEN NullRet[ev.e] ELSE NoPred)
   ELSE CASE ev.e = "setNumChips" -> IF ChipsValid(ev.n) THEN 0 ELSE -1
     [] ev.e = "getNumChips" -> S.craw
-    [] ev.e = "getNumChipsObtained" -> IF S.song = "srsxx" THEN NoPred ELSE S.chips       \* locked setup: 2 chips whatever was asked for
+    [] ev.e = "getNumChipsObtained" -> IF S.song = "srsxx" THEN 2 ELSE S.chips       \* locked setup: 2 chips whatever was asked for
     [] ev.e = "getBank" -> IF ~BankIdOk(ev) THEN -1
                            ELSE IF ev.flags % 2 = 0 THEN (IF BankKey(ev) \in S.banks THEN 0 ELSE -1)
                            ELSE IF ev.flags % 4 = 3 /\ BankKey(ev) \notin S.banks THEN NoPred ELSE 0
